@@ -223,6 +223,49 @@ class Gen:
         return ops
 
 
+def overwrite_histories(rng, n):
+    """'writes overwrite by key': the same key (intermediate-value step, objective values, attribute key) is written several
+    times in a row with values of different classes (finite, +inf, -inf, NaN, denormal, 1e300), reading back in between"""
+    import random
+
+    special = [1000, -1000, 9999, 0, 6, -1, 3]
+    out = []
+    for i in range(n):
+        r = random.Random(rng.getrandbits(48))
+        ndir = r.choice([1, 2])
+        ops = [{"a": "create_study", "name": "A", "dirs": [r.randint(0, 1) for _ in range(ndir)]},
+               {"a": "create_trial", "s": 1, "tm": {"has": 0}},
+               {"a": "create_trial", "s": 1, "tm": {"has": 0}}]
+        for _ in range(r.randint(2, 4)):
+            kind = r.choice(["iv", "iv", "values", "tattr", "sattr"])
+            t = r.choice([1, 2])
+            if kind == "iv":
+                step = str(r.choice(sd.STEPS))
+                for v in r.sample(special, r.randint(2, 4)):
+                    ops.append({"a": "set_iv", "t": t, "step": step, "v": v})
+                    if r.random() < 0.4:
+                        ops.append({"a": "get_trial", "t": t})
+            elif kind == "values":
+                vs = [x for x in special if x != 9999]
+                seq = r.sample(vs, r.randint(2, 3))
+                for j, v in enumerate(seq):
+                    last = j == len(seq) - 1
+                    ops.append({"a": "set_state", "t": t, "state": "COMPLETE" if last else "WAITING",
+                                "values": [v] + [r.choice(vs) for _ in range(ndir - 1)]})
+                    ops.append({"a": "get_trial", "t": t})
+            elif kind == "tattr":
+                key = r.choice(sd.KEYS)
+                for v in r.sample(range(len(sd.ATTRS)), 3):
+                    ops.append({"a": r.choice(["set_trial_ua", "set_trial_sa"]), "t": t, "key": key, "v": v})
+            else:
+                key = r.choice(sd.KEYS)
+                for v in r.sample(range(len(sd.ATTRS)), 3):
+                    ops.append({"a": r.choice(["set_study_ua", "set_study_sa"]), "s": 1, "key": key, "v": v})
+        ops.append({"a": "get_all_trials", "s": 1, "states": ["ALL"], "dc": 1, "as_list": 0})
+        out.append({"hid": f"ow{i}", "ops": ops})
+    return out
+
+
 def histories(rng, n, n_ops=16):
     import random
 
